@@ -27,7 +27,7 @@ func init() {
 	register(&mon.Prop{
 		ID:      "C09",
 		Flavour: "plain",
-		Rule: "hash cases = (message, DST, slice layout) as for C08 (lengths around SHA-256 block boundaries, DST lengths on both sides of 255, nil/empty DST must panic, spare-capacity sub-slices, PRNG pairs). " +
+		Rule: "hash cases = (message, DST, slice layout) as for C08 (lengths around SHA-256 block boundaries, DST lengths on both sides of 255 and at 65535..196863 bytes, nil/empty DST must panic, spare-capacity sub-slices, PRNG pairs), buffer-reuse sequences (successive DSTs written into the same buffer) and concurrent batches. " +
 			"reduce cases = 48-byte strings fed to the wide-reduction step alone (the step a hash output cannot steer): low and high 24-byte halves independently from {0,1,2^192-1,2^191,limb patterns,random}, " +
 			"k*n and k*n±1 for k up to 2^128 (results 0, 1, n-1 needing the final subtraction), all-ones, 2^384-1 neighbours, PRNG. " +
 			"Oracle: OS2IP(expand_message_xmd(msg,DST,48)) mod n, resp. OS2IP(b) mod n, in math/big; the stored limbs must be < n. non-trivial = all non-panicking cases; distinct by input.",
@@ -35,7 +35,7 @@ func init() {
 		Generate: c09Generate,
 		Run:      c09Run,
 		Require: func(string) map[string]int64 {
-			return map[string]int64{"hash": 1000, "reduce": 5000, "reduce:multiple-of-n": 50, "reduce:result<3": 20, "dst:oversize": 50, "panic:empty-dst": 3, "reduce:top-bits-set": 500}
+			return map[string]int64{"hash": 1000, "reduce": 5000, "reduce:multiple-of-n": 50, "reduce:result<3": 20, "dst:oversize": 50, "panic:empty-dst": 3, "reduce:top-bits-set": 500, "reuse-sequences": 100, "concurrent-batches": 4}
 		},
 	})
 }
@@ -157,6 +157,54 @@ func h2cGenerateWrapped(c *mon.Ctx, nRandom int) {
 		}
 	}
 
+	for i, dl := range h2cHugeDstLens {
+		cs := &c09Case{Kind: "hash", H: h2cCase{Fn: "H2S", Msg: mon.H(pat(i, 0x29)), Dst: mon.H(pat(dl, byte(0x50+i))), Layout: "exact"}, Cls: "huge-dst"}
+		c.Structured(func() any { return cs })
+	}
+
+	rr := c.SharedRng("reuse")
+
+	for i := 0; i < 120; i++ {
+		dl := []int{16, 49, 255, 256, 300, 1, 32, 600}[i%8]
+		h := h2cCase{Fn: "H2S", Layout: h2cLayouts[i%len(h2cLayouts)], Class: "reuse"}
+
+		for j := 0; j < 3+i%2; j++ {
+			l := dl
+			if i%5 == 4 && j == 1 {
+				l = dl + 1
+			}
+
+			m := rr.Bytes(8)
+			if j > 0 && i%3 == 0 {
+				m = mon.UnH(h.Reuse[0].Msg)
+			}
+
+			h.Reuse = append(h.Reuse, h2cPair{Msg: mon.H(m), Dst: mon.H(rr.Bytes(l))})
+		}
+
+		if i%4 == 0 {
+			h.Reuse = append(h.Reuse, h.Reuse[0])
+		}
+
+		cs := &c09Case{Kind: "hash", H: h, Cls: "reuse"}
+		c.Structured(func() any { return cs })
+	}
+
+	for b := 0; b < 8; b++ {
+		h := h2cCase{Fn: "H2S", Layout: "exact", Class: "concurrent"}
+		for g := 0; g < 8; g++ {
+			dl := []int{20, 300, 255, 256, 700, 16, 300, 49}[g]
+			if b%2 == 1 {
+				dl = []int{300, 300, 400, 400, 300, 256, 257, 1000}[g]
+			}
+
+			h.Conc = append(h.Conc, h2cPair{Msg: mon.H(rr.Bytes(5 + g)), Dst: mon.H(rr.Bytes(dl))})
+		}
+
+		cs := &c09Case{Kind: "hash", H: h, Cls: "concurrent"}
+		c.Structured(func() any { return cs })
+	}
+
 	c.Structured(func() any { return &c09Case{Kind: "hash", H: h2cCase{Fn: "H2S", Msg: "616263", NilDst: true, Layout: "exact"}, Cls: "nil-dst"} })
 	c.Structured(func() any { return &c09Case{Kind: "hash", H: h2cCase{Fn: "H2S", Msg: "616263", Dst: "", Layout: "exact"}, Cls: "empty-dst"} })
 	c.Structured(func() any { return &c09Case{Kind: "hash", H: h2cCase{Fn: "H2S", Msg: "616263", Dst: "", Layout: "spare8"}, Cls: "empty-dst"} })
@@ -180,6 +228,11 @@ func c09Run(c *mon.Ctx, csAny any) {
 
 	switch cs.Kind {
 	case "hash":
+		if h2cRunHistory(c, &cs.H) {
+			c.Count("hash")
+			return
+		}
+
 		msg, dst, _, _ := h2cInputs(&cs.H, 0x3c)
 
 		var s *secp256k1.Scalar
